@@ -30,7 +30,7 @@ def plan(tier, seed):
     if tier == "quick":
         for i, n in enumerate(common.split_counts(3600, 9)):
             specs.append(dict(name="rand-interp-%d" % i, mode="interp", kind="random", seed=[seed, 1, i], n=n, maxT=300, maxK=8))
-        specs.append(dict(name="rand-jit", mode="jit", kind="random", seed=[seed, 2, 0], n=1500, maxT=300, maxK=8, jit=True))
+        specs.append(dict(name="rand-jit", mode="jit", kind="random", seed=[seed, 2, 0], n=1500, maxT=300, maxK=8, jit=True, huge=True))
         specs.append(dict(name="rand-jitbc", mode="jit_bc", kind="random", seed=[seed, 3, 0], n=1000, maxT=300, maxK=8, jit=True))
         for i in range(4):
             specs.append(dict(name="grid-%d" % i, mode="interp", kind="grid", part=i, parts=4))
@@ -40,7 +40,7 @@ def plan(tier, seed):
         for i, n in enumerate(common.split_counts(48000, 10)):
             specs.append(dict(name="rand-interp-%d" % i, mode="interp", kind="random", seed=[seed, 1, i], n=n, maxT=3000, maxK=40))
         for i in range(3):
-            specs.append(dict(name="rand-jit-%d" % i, mode="jit", kind="random", seed=[seed, 2, i], n=6000, maxT=3000, maxK=40, jit=True))
+            specs.append(dict(name="rand-jit-%d" % i, mode="jit", kind="random", seed=[seed, 2, i], n=6000, maxT=3000, maxK=40, jit=True, huge=(i < 2)))
         for i in range(2):
             specs.append(dict(name="rand-jitbc-%d" % i, mode="jit_bc", kind="random", seed=[seed, 3, i], n=4000, maxT=3000, maxK=40, jit=True))
         for i in range(6):
@@ -324,8 +324,34 @@ def make_random_case(desc):
     return C, beta, exact
 
 
+def make_huge_case(desc):
+    rng = np.random.default_rng(desc["rng"])
+    T, K = int(rng.choice([1_100_000, 1_300_000])), 8
+    C = rng.normal(size=(T, K)) * 2.0
+    t = 0
+    k = 0
+    while t < T:
+        L = int(rng.integers(2000, 40000))
+        C[t:t + L, k] -= 0.4
+        t += L
+        k = int(rng.integers(0, K))
+    return C, float(rng.choice([3.0, 12.0]))
+
+
+def run_huge(spec, res, kernel):
+    """One table of more than 8.4 million cells (compiled kernel only: storage or precision that changes with the size of the table)."""
+    desc = dict(kind="huge", rng=[int(x) for x in spec["seed"]] + [4242])
+    C, beta = make_huge_case(desc)
+    check_case(res, kernel, C, beta, desc, False)
+    T = C.shape[0]
+    res.count("huge_tables")
+    res.nontriv("huge-%d-%s" % (T, spec["mode"]))
+
+
 def run_random(spec, res, kernel):
     rng = np.random.default_rng(spec["seed"])
+    if spec.get("jit") and spec.get("huge"):
+        run_huge(spec, res, kernel)
     for i in range(spec["n"]):
         cls = CLASSES[int(rng.integers(0, len(CLASSES)))]
         if spec.get("jit"):
@@ -405,6 +431,8 @@ def replay(case, res):
     kernel = cla.assign_point_cluster_labels
     if case["kind"] == "random":
         C, beta, exact = make_random_case(case)
+    elif case["kind"] == "huge":
+        (C, beta), exact = make_huge_case(case), False
     else:
         C = np.array(case["cells"], dtype=np.float64).reshape(case["T"], case["K"])
         beta = float(case["beta"]) if case["beta_kind"] == "s" else np.array(case["beta"], dtype=np.float64)
@@ -419,6 +447,8 @@ def finalize(merged, tier):
         out["inconclusive"].append("only %d tables with more than 4096 points" % c.get("long_tables", 0))
     if c.get("large_K_cases", 0) < 20:
         out["inconclusive"].append("only %d cases with more than 256 clusters" % c.get("large_K_cases", 0))
+    if c.get("huge_tables", 0) < 1:
+        out["inconclusive"].append("no table of more than 8.4 million cells went through the compiled kernel")
     if c.get("long_weak_evidence_sweeps", 0) < 3:
         out["inconclusive"].append("only %d long weak-evidence sweeps through the relabelling function" % c.get("long_weak_evidence_sweeps", 0))
     if c.get("predict_calls_checked", 0) < 300:
